@@ -1,0 +1,18 @@
+//go:build verif
+
+// Contracts for govc (contract-based deductive verification, /verif). Comment-only file:
+// it is compiled only under the build tag "verif" and contains no code.
+
+package host_rule_conf
+
+// ---- C13: a malformed (but decodable) host table is rejected with an error, never with a crash ----
+
+//@ func HostTableConfCheck
+//@   props C13
+//@   nopanic nil,index
+//@   modifies nothing
+//@   ensures[an_accepted_table_has_all_its_parts] result0 == nil ==> conf.Version != nil && conf.Hosts != nil && conf.HostTags != nil
+//@   ensures[the_default_product_of_an_accepted_table_has_host_tags] result0 == nil && conf.DefaultProduct != nil ==> has(*conf.HostTags, *conf.DefaultProduct)
+//@   loop 1 invariant[every_product_seen_so_far_has_a_tag_list] forall p string :: visited(p) && has(*conf.HostTags, p) ==> (*conf.HostTags)[p] != nil
+//@   loop 2 invariant[every_product_has_a_tag_list] forall p string :: has(*conf.HostTags, p) ==> (*conf.HostTags)[p] != nil
+//@   loop 3 invariant[every_product_has_a_tag_list] forall p string :: has(*conf.HostTags, p) ==> (*conf.HostTags)[p] != nil
